@@ -742,7 +742,7 @@ func (e *Exec) doNext(fr *Frame, x *ssa.Next, st *State, g string) {
 	v := e.Out.Fresh(fr.prefix+x.Name()+"$v", vsrt)
 	e.assume(g, Imp(okSym, And(Not(Eq(m.T, "0")), Sel(dom, k), Not(Sel(visited, k)), Eq(v, Sel(Sel(e.get(st, vh, vs), m.T), k)))))
 	qk := e.Out.FreshName("qk")
-	e.assume(g, Imp(Not(okSym), Or(Eq(m.T, "0"), "(forall (("+qk+" "+string(ks)+")) (! (=> "+Sel(dom, qk)+" "+Sel(visited, qk)+") :pattern ("+Sel(visited, qk)+")))")))
+	e.assume(g, Imp(Not(okSym), Or(Eq(m.T, "0"), "(forall (("+qk+" "+string(ks)+")) (! (=> "+Sel(dom, qk)+" "+Sel(visited, qk)+") :pattern ("+Sel(visited, qk)+") :pattern ("+Sel(dom, qk)+")))")))
 	e.Out.Assert(e.rangeFact(k, mt.Key(), st))
 	e.Out.Assert(e.rangeFact(v, mt.Elem(), st))
 	e.set(st, name, ArrSort(ks, SBool), Ite(okSym, Sto(visited, k, "true"), visited))
